@@ -91,8 +91,87 @@ pub fn record(args: &Args) {
     }
     // (c) derived quantities observable through the public API
     derive(&mut out, &mut rng, if args.thorough() { 4000 } else { 400 });
+    derive_seeded(&mut out, &mut rng, if args.thorough() { 60 } else { 12 });
     let (runs, events) = out.finish();
     println!("{}", json!({"runs":runs,"events":events}));
+}
+
+/// Derivations under a configured seed: the row / column a CPC sketch and the hash a theta sketch derive for
+/// an item, the seed hash their images carry, and the seed a CPC union hands on to its result whatever path
+/// built that result (copy of the first input, accumulator rebuilt at a smaller lg_k, bit matrix).
+fn derive_seeded(out: &mut Shards, rng: &mut Rng, n: usize) {
+    use datasketches::cpc::{CpcSketch, CpcUnion};
+    use datasketches::theta::ThetaSketch;
+    let row_col = |item: u64, lgk: u8, seed: u64| -> (u32, u32) {
+        let (h1, h2) = refhash::murmur3_x64_128(&refhash::hashed_bytes(&item), seed);
+        ((h1 & ((1u64 << lgk) - 1)) as u32, h2.leading_zeros().min(63))
+    };
+    for i in 0..n {
+        let seed = match i {
+            0 => 17,
+            1 => u64::MAX,
+            2 => 0xDEAD_BEEF,
+            _ => rng.next(),
+        };
+        let want_sh = refhash::seed_hash(seed);
+        if want_sh == 0 {
+            continue;
+        }
+        out.next_run("hash-derive-seeded");
+        // CPC sketch
+        let item = rng.next();
+        let mut sk = CpcSketch::with_seed(11, seed);
+        sk.update(item);
+        let st = sk.verif_state();
+        let pair = st.table.first().copied().unwrap_or(u32::MAX);
+        let (r, c) = row_col(item, 11, seed);
+        out.ev(json!({"op":"Derive","what":"cpc_rowcol","kind":"seeded","lib":[pair >> 6, pair & 63],"ref":[r, c]}));
+        let img = sk.serialize();
+        out.ev(json!({"op":"Derive","what":"cpc_seed_hash","kind":"seeded","lib":[img[6], img[7]],"ref":want_sh.to_le_bytes().to_vec()}));
+        // theta
+        let mut th = ThetaSketch::builder().seed(seed).build();
+        th.update(item);
+        let lib = th.iter().next().unwrap_or(0);
+        let want = refhash::murmur3_x64_128(&refhash::hashed_bytes(&item), seed).0 >> 1;
+        out.ev(json!({"op":"Derive","what":"theta_hash","kind":"seeded","lib":hex64(lib),"ref":hex64(want)}));
+        th.update(rng.next());
+        let timg = th.compact(true).serialize();
+        out.ev(json!({"op":"Derive","what":"theta_seed_hash","kind":"seeded","lib":[timg[6], timg[7]],"ref":want_sh.to_le_bytes().to_vec()}));
+        // CPC union results: (union lg_k, [(input lg_k, items)])
+        let plans: Vec<(u8, Vec<(u8, usize)>)> = vec![
+            (11, vec![(11, 30)]),                      // copy of the first sparse input
+            (12, vec![(12, 30), (10, 20)]),            // accumulator rebuilt at a smaller lg_k, still sparse
+            (12, vec![(12, 300), (10, 5)]),            // ... and dense enough to become a bit matrix
+            (12, vec![(9, 12)]),                       // empty accumulator, smaller first input
+            (10, vec![(12, 40), (12, 10)]),            // larger inputs walked into the accumulator
+            (10, vec![(10, 3000)]),                    // dense input: bit matrix
+            (11, vec![(11, 25), (8, 10), (11, 40)]),
+        ];
+        for (ulgk, inputs) in plans {
+            let mut u = CpcUnion::with_seed(ulgk, seed);
+            let mut items: Vec<u64> = vec![];
+            for (lgk, cnt) in inputs {
+                let mut s = CpcSketch::with_seed(lgk, seed);
+                for _ in 0..cnt {
+                    let x = rng.next();
+                    items.push(x);
+                    s.update(x);
+                }
+                u.update(&s);
+                let res = u.to_sketch();
+                let rimg = res.serialize();
+                let dec = CpcSketch::deserialize_with_seed(&rimg, seed).is_ok();
+                // items already in the result fall on bits already set, under the union's seed
+                let mut again = res.clone();
+                for &x in &items {
+                    again.update(x);
+                }
+                let stable = again.num_coupons() == res.num_coupons();
+                out.ev(json!({"op":"Derive","what":"cpc_union_seed","kind":format!("union {ulgk} <- {lgk}x{cnt}"),
+                    "lib":[rimg[6], rimg[7], dec as u8, stable as u8],"ref":[want_sh.to_le_bytes()[0], want_sh.to_le_bytes()[1], 1, 1]}));
+            }
+        }
+    }
 }
 
 /// what an item becomes in two sketches, read back through the public API, against the reference
